@@ -594,6 +594,101 @@ theorem searchSel_inv {M : Matchers Re} {s : St} {cv cp : List (SKey × Id)} (h 
   | none => exact h
   | some q => exact h.setCaches _
 
+
+/-! ### periodic flush, deferred cache-generation bump, evictions -/
+
+theorem Inv.setNeedBump {s : St} {cv cp : List (SKey × Id)} (h : Inv s cv cp) (b : Bool) :
+    Inv { s with needBump := b } cv cp :=
+  ⟨h.vis, h.pend, h.good, h.clock, h.seqb, h.ids, h.live1, h.cacheSound, h.pendCached, h.delVis, h.disj⟩
+
+theorem pflush_spec {s : St} {cv cp : List (SKey × Id)} (h : Inv s cv cp) : Inv (pflush s) (cv ++ cp) [] := by
+  unfold pflush
+  by_cases he : s.pend.isEmpty = true
+  · simp only [he, if_true]
+    have : cp = [] := Gen_eq_nil (by rw [← h.pend]; exact List.isEmpty_iff.mp he)
+    subst this
+    rw [List.append_nil]; exact h
+  · simp only [he, Bool.false_eq_true, if_false]
+    have hf := h.flushed s.caches s.tsid h.cacheSound
+    exact ⟨hf.vis, hf.pend, hf.good, hf.clock, hf.seqb, hf.ids, hf.live1, hf.cacheSound, hf.pendCached, hf.delVis, hf.disj⟩
+
+theorem bump_spec {s : St} {cv cp : List (SKey × Id)} (h : Inv s cv cp) : Inv (bump s) cv cp := by
+  unfold bump
+  split
+  · exact ⟨h.vis, h.pend, h.good, h.clock, h.seqb, h.ids, h.live1, h.cacheSound, h.pendCached, h.delVis, h.disj⟩
+  · exact h
+
+theorem evictFilters_spec {s : St} {cv cp : List (SKey × Id)} (h : Inv s cv cp) : Inv (evictFilters s) cv cp :=
+  h.setCaches _
+
+theorem cacheGet_filter (c : List (SKey × Id)) (keep : SKey → Bool) (key : SKey) (hk : keep key = true) :
+    cacheGet (c.filter (fun e => keep e.1)) key = cacheGet c key := by
+  induction c with
+  | nil => rfl
+  | cons e c ih =>
+    by_cases he : e.1 = key
+    · have : keep e.1 = true := by rw [he]; exact hk
+      simp only [List.filter_cons, this, if_true]
+      simp [cacheGet, List.find?_cons, he]
+    · by_cases hke : keep e.1 = true
+      · simp only [List.filter_cons, hke, if_true]
+        simp only [cacheGet, List.find?_cons, he, decide_false] at ih ⊢
+        exact ih
+      · have hke' : keep e.1 = false := by simpa using hke
+        simp only [List.filter_cons, hke', Bool.false_eq_true, if_false]
+        rw [ih]
+        simp [cacheGet, List.find?_cons, he]
+
+/-- an eviction that spares the series not yet flushed keeps the invariant: the cache stays a
+subset of what was issued, and every pending series is still found through it -/
+theorem evict_spec {s : St} {cv cp : List (SKey × Id)} (h : Inv s cv cp) (keep : SKey → Bool)
+    (hk : ∀ p ∈ cp, keep p.1 = true) : Inv (evict s keep) cv cp where
+  vis := h.vis
+  pend := h.pend
+  good := h.good
+  clock := h.clock
+  seqb := h.seqb
+  ids := h.ids
+  live1 := h.live1
+  cacheSound := by
+    intro e he
+    exact h.cacheSound e (List.mem_filter.mp he).1
+  pendCached := by
+    intro p hp
+    obtain ⟨h1, h2⟩ := h.pendCached p hp
+    exact ⟨by show cacheGet (s.tsid.filter _) p.1 = some p.2; rw [cacheGet_filter _ _ _ (hk p hp)]; exact h1, h2⟩
+  delVis := h.delVis
+  disj := h.disj
+
+
+theorem slowLookup_needBump (s : St) (key : SKey) : (slowLookup s key).2.needBump = s.needBump := by
+  unfold slowLookup
+  split
+  · split <;> split <;> rfl
+  · rfl
+
+theorem getSeriesId_needBump (s : St) (key : SKey) : (getSeriesId s key).2.needBump = s.needBump := by
+  unfold getSeriesId
+  split
+  · split
+    · rfl
+    · exact slowLookup_needBump s key
+  · exact slowLookup_needBump s key
+
+theorem insert_needBump (s : St) (key : SKey) : (insert s key).2.needBump = s.needBump := by
+  unfold insert
+  simp only
+  split
+  · exact getSeriesId_needBump s key
+  · exact getSeriesId_needBump s key
+
+theorem flush_needBump (s : St) : (flush s).needBump = s.needBump := by
+  unfold flush; split <;> rfl
+
+theorem searchSel_needBump (M : Matchers Re) (s : St) (mst : Str) (p : Option (Pred Re)) :
+    (searchSel M s mst p).2.needBump = s.needBump := by
+  unfold searchSel; cases p <;> rfl
+
 /-! ### operation sequences -/
 
 inductive Op (Re : Type) where
@@ -605,6 +700,10 @@ inductive Op (Re : Type) where
   | restart (dt : Nat)
   | del (mst : Str) (p : Option (Pred Re))
   | sel (mst : Str) (p : Option (Pred Re))
+  | pflush
+  | bump
+  | evict (keep : SKey → Bool)
+  | evictFilters
 
 def apply (M : Matchers Re) (s : St) : Op Re → St
   | .ins k => (insert s k).2
@@ -615,6 +714,10 @@ def apply (M : Matchers Re) (s : St) : Op Re → St
   | .restart dt => restart s dt
   | .del mst p => delete M s mst p
   | .sel mst p => (searchSel M s mst p).2
+  | .pflush => pflush s
+  | .bump => bump s
+  | .evict keep => evict s keep
+  | .evictFilters => evictFilters s
 
 /-- what the harness (and the write path) guarantee about an operation: well-formed series keys,
 predicates over non-empty tag keys, and no overflow of the 40-bit sequence part of a tsid -/
@@ -623,6 +726,7 @@ def Op.Ok (s : St) : Op Re → Prop
   | .restart dt => s.now + dt < 2 ^ 40
   | .del _ p => optKeysOk p
   | .sel _ p => optKeysOk p
+  | .evict keep => ∀ k i, Item.k2i k i ∈ s.pend → keep k = true   -- no series is evicted before it is flushed
   | _ => True
 
 /-- states reachable from a fresh index by well-formed operations -/
@@ -665,6 +769,13 @@ theorem apply_inv {M : Matchers Re} {s : St} {cv cp : List (SKey × Id)} (h : In
     exact ⟨cv ++ cp, [], reopenWith_spec hI hok, fun _ hp => by simpa using hp⟩
   | del mst p => exact ⟨cv, cp, delete_spec h mst p hok, fun _ hp => hp⟩
   | sel mst p => exact ⟨cv, cp, searchSel_inv h mst p, fun _ hp => hp⟩
+  | pflush => exact ⟨cv ++ cp, [], pflush_spec h, fun _ hp => by simpa using hp⟩
+  | bump => exact ⟨cv, cp, bump_spec h, fun _ hp => hp⟩
+  | evict keep =>
+    refine ⟨cv, cp, evict_spec h keep ?_, fun _ hp => hp⟩
+    intro p hp
+    exact hok p.1 p.2 (by rw [h.pend]; exact mem_Gen_k2i.mpr hp)
+  | evictFilters => exact ⟨cv, cp, evictFilters_spec h, fun _ hp => hp⟩
 
 theorem reach_inv {M : Matchers Re} {s : St} (hr : Reach M s) : ∃ cv cp, Inv s cv cp := by
   induction hr with
@@ -674,34 +785,67 @@ theorem reach_inv {M : Matchers Re} {s : St} (hr : Reach M s) : ∃ cv cp, Inv s
     obtain ⟨cv', cp', h', _⟩ := apply_inv (M := M) h op hok
     exact ⟨cv', cp', h'⟩
 
-/-- with faithful matchers the tag-filter cache stays coherent along every run -/
+/-- with faithful matchers the tag-filter cache is coherent in every reachable state in which no
+flush callback is owed (between a non-final flush and the deferred callback it may be stale) -/
 theorem reach_cache {M : Matchers Re} (hM : MatcherFaithful M) (hK : KeySound M) {s : St} (hr : Reach M s) :
-    ∃ cv cp, Inv s cv cp ∧ CacheOk M cv s.deleted s.caches := by
+    ∃ cv cp, Inv s cv cp ∧ (s.needBump = false → CacheOk M cv s.deleted s.caches) := by
   induction hr with
-  | init clock now hc hn => exact ⟨[], [], init_inv clock now hc hn, CacheOk.nil rfl⟩
+  | init clock now hc hn => exact ⟨[], [], init_inv clock now hc hn, fun _ => CacheOk.nil rfl⟩
   | @step s op _ hok ih =>
     obtain ⟨cv, cp, h, hc⟩ := ih
     cases op with
     | ins k =>
       obtain ⟨cp', hI, _, _, hdel, hcaches, _⟩ := insert_spec h hok.1 hok.2
       refine ⟨cv, cp', hI, ?_⟩
+      have hnb : (insert s k).2.needBump = s.needBump := insert_needBump s k
+      intro hb
       show CacheOk M cv (insert _ k).2.deleted (insert _ k).2.caches
-      rw [hdel, hcaches]; exact hc
+      rw [hdel, hcaches]; exact hc (by rw [← hnb]; exact hb)
     | get k =>
       obtain ⟨hI, _, _, hdel, hcaches, _⟩ := getSeriesId_spec h k
       refine ⟨cv, cp, hI, ?_⟩
+      have hnb : (getSeriesId s k).2.needBump = s.needBump := getSeriesId_needBump s k
+      intro hb
       show CacheOk M cv (getSeriesId _ k).2.deleted (getSeriesId _ k).2.caches
-      rw [hdel, hcaches]; exact hc
-    | flush => exact ⟨cv ++ cp, [], flush_spec h, flush_cache h hc⟩
-    | clear => exact ⟨cv ++ cp, [], clear_spec h, clear_cache _ _⟩
-    | reopen => exact ⟨cv ++ cp, [], reopenWith_spec h h.seqb, reopenWith_cache _ _ _⟩
+      rw [hdel, hcaches]; exact hc (by rw [← hnb]; exact hb)
+    | flush =>
+      refine ⟨cv ++ cp, [], flush_spec h, fun hb => flush_cache h (hc ?_)⟩
+      rw [← flush_needBump s]; exact hb
+    | clear => exact ⟨cv ++ cp, [], clear_spec h, fun _ => clear_cache _ _⟩
+    | reopen => exact ⟨cv ++ cp, [], reopenWith_spec h h.seqb, fun _ => reopenWith_cache _ _ _⟩
     | restart dt =>
       have hI : Inv { s with now := s.now + dt } cv cp :=
         ⟨h.vis, h.pend, h.good, h.clock, h.seqb, h.ids, h.live1, h.cacheSound, h.pendCached, h.delVis, h.disj⟩
-      exact ⟨cv ++ cp, [], reopenWith_spec hI hok, reopenWith_cache _ _ _⟩
-    | del mst p => exact ⟨cv, cp, delete_spec h mst p hok, delete_cache _ _ _ _⟩
+      exact ⟨cv ++ cp, [], reopenWith_spec hI hok, fun _ => reopenWith_cache _ _ _⟩
+    | del mst p => exact ⟨cv, cp, delete_spec h mst p hok, fun _ => delete_cache _ _ _ _⟩
     | sel mst p =>
-      obtain ⟨h1, h2, _⟩ := searchSel_spec hM hK h hc mst p hok
-      exact ⟨cv, cp, h1, h2⟩
+      refine ⟨cv, cp, searchSel_inv h mst p, fun hb => ?_⟩
+      have hb' : s.needBump = false := by rw [← searchSel_needBump M s mst p]; exact hb
+      exact (searchSel_spec hM hK h (hc hb') mst p hok).2.1
+    | pflush =>
+      refine ⟨cv ++ cp, [], pflush_spec h, fun hb => ?_⟩
+      -- nothing was pending (else the callback is owed now): the state is unchanged
+      have hb' : (pflush s).needBump = false := hb
+      show CacheOk M (cv ++ cp) (pflush s).deleted (pflush s).caches
+      unfold pflush at hb' ⊢
+      by_cases he : s.pend.isEmpty = true
+      · simp only [he, if_true] at hb' ⊢
+        have : cp = [] := Gen_eq_nil (by rw [← h.pend]; exact List.isEmpty_iff.mp he)
+        subst this
+        rw [List.append_nil]; exact hc hb'
+      · simp only [he, Bool.false_eq_true, if_false] at hb'
+        exact absurd hb' (by decide)
+    | bump =>
+      refine ⟨cv, cp, bump_spec h, fun _ => ?_⟩
+      show CacheOk M cv (bump s).deleted (bump s).caches
+      unfold bump
+      cases hb : s.needBump with
+      | true => simp only [if_true]; exact CacheOk.nil rfl
+      | false => simp only [Bool.false_eq_true, if_false]; exact hc hb
+    | evict keep =>
+      refine ⟨cv, cp, evict_spec h keep ?_, fun hb => hc hb⟩
+      intro p hp
+      exact hok p.1 p.2 (by rw [h.pend]; exact mem_Gen_k2i.mpr hp)
+    | evictFilters => exact ⟨cv, cp, evictFilters_spec h, fun _ => CacheOk.nil rfl⟩
 
 end OG.C10
